@@ -3,7 +3,7 @@ _COMMON_TB = [
     'axioms: none (Print Assumptions: closed under the global context)',
     'correspondence harness harness/evmexec.go + harness/asm.go (hand-assembled generic script contract, call-tree '
     'encoder, tracer that records which frames failed, reference accounting, metamorphic oracle) + vlib/core.py',
-    'modelled, not verified: go-ethereum interpreter (only CALL/SSTORE/LOG/BALANCE/REVERT/SELFDESTRUCT of the script contract are used), '
+    'modelled, not verified: go-ethereum interpreter (only CALL/SSTORE/LOG/BALANCE/REVERT/SELFDESTRUCT/CREATE of the script contract are used; constructors run scripts through a DELEGATECALL into a library copy of the interpreter), '
     'SDK staking/distribution/authz/bank keepers (their effect on balances, delegations, rewards, withdraw address, grants is '
     'transcribed in Evm/ExecModel.v and sampled), the ICS-20 precompile is exercised with transfer of the bond denomination over one open channel (escrow; transfer grants; no relaying), the bank / werc20 precompiles and redelegate / cancelUnbondingDelegation are not exercised by this driver, gas is not modelled '
     '(gas price 0, ample gas limit)',
@@ -21,12 +21,12 @@ P = {
     'rule': 'a case is a random setup (balances, delegations, allocated rewards, withdraw addresses, staking and ICS-20 transfer grants of the signer) '
             'plus one Ethereum transaction: either EOA -> staking/distribution/ICS-20 precompile or EOA -> script contract running a '
             'random call tree (depth <= 3) of SSTORE / LOG / BALANCE / CALL with value / precompile calls (delegate, undelegate, withdraw, setWithdrawAddress, '
-            'claimRewards, ICS-20 transfer) / SELFDESTRUCT (a fifth of the cases self-destruct-heavy: few contracts called repeatedly) / REVERT with catching and '
+            'claimRewards, ICS-20 transfer) / SELFDESTRUCT (a fifth of the cases self-destruct-heavy: few contracts called repeatedly) / CREATE with a scripted constructor (value, reverting, code-less, self-destructing constructors; CREATE addresses funded beforehand; a seventh of the cases creation-heavy) / zero-value calls to module accounts / REVERT with catching and '
             'propagating callers, executed by the real EvmKeeper.ApplyTransaction; non-trivial = the transaction succeeded; '
             'distinct = distinct (setup, program)',
     'trusted_base': _COMMON_TB,
     'assumptions': ['gas price 0, so no fee enters the balance equations', 'one validator, no slashing (tokens = shares)'],
-    'level_text': 'Coq theorems: the StateDB journal is a correct undo log for every sequence of cache mutations (balances, storage, logs, creations) and every snapshot; every pure EVM call tree extends the journal cleanly and a failing pure frame leaves no trace; a failed transaction changes nothing; refutation witnesses (K3) for frames that called a stateful precompile, reproduced bit-for-bit by the model. Every run compares the model with the real keeper on generated call trees and evaluates the property on the real run by a metamorphic oracle: the same transaction with the failed frames erased must end in the same state',
+    'level_text': 'Coq theorems: the StateDB journal is a correct undo log for every sequence of cache mutations (balances, storage, logs, account creation, self-destruct, CreateAccount over an existing object) and every snapshot; every EVM call tree without precompile calls — self-destructs and contract creations with scripted constructors included — extends the journal cleanly and a failing pure frame leaves no trace; a failed transaction changes nothing; refutation witnesses (K3) for frames that called a stateful precompile, reproduced bit-for-bit by the model. Every run compares the model with the real keeper on generated call trees and evaluates the property on the real run by a metamorphic oracle: the same transaction with the failed frames erased must end in the same state',
     'level_note': 'partial: go-ethereum interpreter, SDK keepers and gas are modelled not verified; theorems assume a saturated cache (all existing accounts loaded) — loading is observationally irrelevant',
     'technique': 'Coq proof over a StateDB/precompile model + differential correspondence on generated EVM call trees',
 }
